@@ -400,3 +400,61 @@ func TestZZReplay(t *testing.T) {
 		},
 	})
 }
+
+func init() {
+	// createDisk: the commit step (volume.meta) of a snapshot fails after the in-memory chain was already updated
+	// (scripted R-fs: volume.meta.tmp cannot be opened because a directory of that name exists)
+	replayTemplates = append(replayTemplates, replayTemplate{
+		match: func(o *Obligation) bool {
+			return o.Fn == "replica.Replica.createDisk" && strings.HasPrefix(o.Kind, "post#failkeepschain")
+		},
+		scripted: true,
+		pkg:      "replica",
+		tags:     "debug",
+		gen: func(o *Obligation, vals map[string]string) (string, bool) {
+			return `package replica
+
+import (
+	"os"
+	"path/filepath"
+	"testing"
+)
+
+func TestZZReplay(t *testing.T) {
+	dir, _ := os.MkdirTemp("", "zz-replay-snapfail")
+	defer os.RemoveAll(dir)
+	r, err := New(false, 1<<20, 4096, dir, nil, "")
+	if err != nil {
+		t.Fatal(err)
+	}
+	defer r.Close()
+	if err := r.Snapshot("000a", true, "now"); err != nil {
+		t.Fatal(err)
+	}
+	before, err := r.Chain()
+	if err != nil {
+		t.Fatal(err)
+	}
+	nFiles, nActive := len(r.volume.files), len(r.activeDiskData)
+	// the commit step of the next snapshot fails: volume.meta.tmp cannot be opened
+	if err := os.Mkdir(filepath.Join(dir, "volume.meta.tmp"), 0700); err != nil {
+		t.Fatal(err)
+	}
+	err = r.Snapshot("001b", true, "now")
+	t.Logf("Snapshot whose volume.meta write fails: err=%v", err)
+	if err == nil {
+		t.Log("REPLAY-NOT-REPRODUCED (the injected failure did not happen)")
+		return
+	}
+	os.Remove(filepath.Join(dir, "volume.meta.tmp"))
+	after, cerr := r.Chain()
+	t.Logf("chain before %v, after %v (err %v); files %d->%d, activeDiskData %d->%d, head=%s", before, after, cerr, nFiles, len(r.volume.files), nActive, len(r.activeDiskData), r.info.Head)
+	if cerr != nil || len(after) != len(before) || len(r.volume.files) != nFiles || len(r.activeDiskData) != nActive {
+		t.Fatalf("REPLAY-REPRODUCED: a failed snapshot changed the in-memory chain (Chain() now: %v)", cerr)
+	}
+	t.Log("REPLAY-NOT-REPRODUCED")
+}
+`, true
+		},
+	})
+}
